@@ -117,3 +117,44 @@ Definition sc_algo (alts : list N) (orders : list (list N)) : result (option (li
 (* the Boolean of the returned pair *)
 Definition sc_algo_verdict (alts : list N) (orders : list (list N)) : bool :=
   match sc_algo alts orders with Ok (Some _) => true | _ => false end.
+
+(* ---------------------------------------------------------------------------------------------- *)
+(* MIRROR of is_single_crossing_conflict_sets (orders are flat: the 1-tuples of the stored orders are
+   identified with their member):
+
+     def prefers(a, b, o): return o.index(a) < o.index(b)
+     def conflict_set(o1, o2):
+         res = set([])
+         for i in range(len(o1)):
+             for j in range(i + 1, len(o1)):
+                 if (prefers(o1[i], o1[j], o1) and prefers(o1[j], o1[i], o2)) or (
+                     prefers(o1[j], o1[i], o1) and prefers(o1[i], o1[j], o2)):
+                     res.add((min(o1[i][0], o1[j][0]), max(o1[i][0], o1[j][0])))
+         return res
+     def is_SC_with_first(i, profile):
+         for j in range(len(profile)):
+             for k in range(len(profile)):
+                 if not (conflict_ij.issubset(conflict_ik) or conflict_ik.issubset(conflict_ij)): return False
+         return True
+     for i in range(len(instance.orders)):
+         if is_SC_with_first(i, instance.orders): return True
+     return False
+
+   A Python set is a list used through membership only.  `pairs o1` enumerates (o1[i], o1[j]), i < j, in
+   loop order; `prefers` is the index comparison (theorem prefers_idx). *)
+Definition conflict_set (o1 o2 : list N) : list (N * N) :=
+  flat_map (fun p => let a := fst p in let b := snd p in
+                     if (prefers o1 a b && prefers o2 b a) || (prefers o1 b a && prefers o2 a b)
+                     then [(N.min a b, N.max a b)] else [])
+           (pairs o1).
+
+Definition pair_eqb (p q : N * N) : bool := N.eqb (fst p) (fst q) && N.eqb (snd p) (snd q).
+Definition subsetb (s t : list (N * N)) : bool := forallb (fun p => existsb (pair_eqb p) t) s.
+
+Definition sc_with_first (v : list N) (profile : list (list N)) : bool :=
+  forallb (fun oj => forallb (fun ok =>
+     subsetb (conflict_set v oj) (conflict_set v ok) || subsetb (conflict_set v ok) (conflict_set v oj))
+     profile) profile.
+
+Definition conflict_sets_algo (orders : list (list N)) : bool :=
+  existsb (fun v => sc_with_first v orders) orders.
